@@ -235,6 +235,8 @@ def ctx_facts : CurveFacts ctx where
   mixedMult := ctx_mixedMult
   affineX := fun P Q h => by rw [affX_eq]; exact (Props.C15.getAffineX_rep h).2
   bytesUnsafe := fun P Q h => (Props.C15.bytes_rep h).2
+  affineXSafe := fun P Q h => by rw [affX_eq]; exact (Props.C15.getAffineX_rep h).1
+  bytesSafe := fun P Q h => (Props.C15.bytes_rep h).1
   setBytes := ctx_setBytes
   fieldSetBytes := ctx_fieldSetBytes
   checkOnCurve := ctx_checkOnCurve
